@@ -126,15 +126,147 @@ def build(uni):
         "from the clashing one (its contract is C16's); rename_symbol sets "
         "the symbol's name or raises SymbolError; add records the symbol "
         "in a ghost set")
-    return [c]
+    return [c] + build_inlined_idx(uni)
+
+
+def build_inlined_idx(uni):
+    """InlineTrans._create_inlined_idx: the index expression written for an
+    inlined array access denotes  local_idx - decln_start + actual_start
+    (component-wise for a range; the step is kept), where V(e) is the
+    integer an expression denotes during the call."""
+    from pyvc.interp import LoopSpec      # noqa: F401
+    from pyvc.values import VTerm, VInt
+    IT = "psyir/transformations/inline_trans.py"
+    INT = z3.IntSort()
+    AL0 = z3.Const("H0_$alloc", z3.ArraySort(Ref, BOOL))
+    V = z3.Function("value_of", Ref, INT)
+    VLO = z3.Function("range_lower_value", Ref, INT)
+    VHI = z3.Function("range_upper_value", Ref, INT)
+    VST = z3.Function("range_step_value", Ref, INT)
+    SUBST = z3.Function("with_actual_arguments", Ref, Ref)
+    COPY = z3.Function("copy_of", Ref, Ref)
+    BIN = z3.Function("binary_operation", INT, Ref, Ref, Ref)
+    RNG = z3.Function("range_node", Ref, Ref, Ref, Ref)
+    PART = z3.Function("range_part_node", Ref, INT, Ref)
+    NEQ = z3.Function("structurally_equal", Ref, Ref, BOOL)
+
+    def obj(st, e):
+        st.assume(z3.And(e != NULLC, z3.Select(AL0, e)))
+        return e
+
+    def h_subst(it, s, a, k, st, fr):
+        r = obj(st, SUBST(a[0].e))
+        st.assume(V(r) == V(a[0].e))
+        return VRef(r, "Node")
+
+    def h_copy(it, s, a, k, st, fr):
+        r = obj(st, COPY(s.e))
+        st.assume(z3.And(V(r) == V(s.e), VLO(r) == VLO(s.e),
+                         VHI(r) == VHI(s.e), VST(r) == VST(s.e)))
+        return VRef(r, s.cls)
+
+    def h_bin(it, s, a, k, st, fr):
+        op = a[0].args[-1] if isinstance(a[0], VTerm) else "?"
+        code = {"SUB": 1, "ADD": 2}.get(op, 0)
+        r = obj(st, BIN(z3.IntVal(code), a[1].e, a[2].e))
+        if code == 1:
+            st.assume(V(r) == V(a[1].e) - V(a[2].e))
+        elif code == 2:
+            st.assume(V(r) == V(a[1].e) + V(a[2].e))
+        return VRef(r, "Node")
+
+    def h_range_create(it, s, a, k, st, fr):
+        r = obj(st, RNG(a[0].e, a[1].e, a[2].e))
+        st.assume(z3.And(VLO(r) == V(a[0].e), VHI(r) == V(a[1].e),
+                         VST(r) == V(a[2].e)))
+        return VRef(r, "Range")
+
+    def part(kk, vf):
+        def h(it, s, a, k, st, fr):
+            r = obj(st, PART(s.e, z3.IntVal(kk)))
+            st.assume(V(r) == vf(s.e))
+            st.assume(z3.Not(it.uni.isinstance_expr(r, "Range")))
+            return VRef(r, "Node")
+        return h
+    uni.method_hooks.update({
+        "InlineTrans._replace_formal_arg": h_subst,
+        "Node.copy": h_copy, "Range.copy": h_copy,
+        "BinaryOperation.create": h_bin,
+        "Range.create": h_range_create,
+        "Range.start": part(0, VLO), "Range.stop": part(1, VHI),
+        "Range.step": part(2, VST),
+    })
+    prev = getattr(uni, "class_attr", None)
+    uni.class_attr = lambda it, cname, attr, st, fr: (
+        VTerm("ns", ["BinaryOperation", "Operator"])
+        if (cname, attr) == ("BinaryOperation", "Operator") else
+        (prev(it, cname, attr, st, fr) if prev else None))
+    uni.term_attr = lambda it, o, attr, st, fr: VTerm(
+        "ns", list(o.args) + [attr])
+
+    def compare_hook(it, op, a, b, st, fr):
+        if op in ("Eq", "NotEq") and isinstance(a, VRef) and \
+                isinstance(b, VRef) and a.cls in ("Node", "Range") and \
+                b.cls in ("Node", "Range"):
+            e = NEQ(a.e, b.e)
+            return e if op == "Eq" else z3.Not(e)
+        return None
+    uni.compare_hook = compare_hook
+    uni.consts.update({
+        "V": VFunc("hook", fn=lambda it, a, k, st, fr: VInt(V(a[0].e))),
+        "VLO": VFunc("hook", fn=lambda it, a, k, st, fr: VInt(VLO(a[0].e))),
+        "VHI": VFunc("hook", fn=lambda it, a, k, st, fr: VInt(VHI(a[0].e))),
+        "VST": VFunc("hook", fn=lambda it, a, k, st, fr: VInt(VST(a[0].e))),
+        "SAME": VFunc("hook", fn=lambda it, a, k, st, fr: VBool(
+            NEQ(a[0].e, a[1].e))),
+    })
+    ci = Contract(
+        f"{IT}:InlineTrans._create_inlined_idx",
+        params={"self": "InlineTrans", "call_node": "Obj",
+                "formal_args": "Obj", "local_idx": "Range",
+                "decln_start": "Node", "actual_start": "Node"},
+        requires=[
+            ("nodes", "local_idx is not None and decln_start is not None "
+                      "and actual_start is not None"),
+            ("equal_starts_denote_equal_values",
+             "implies(SAME(decln_start, actual_start), "
+             "V(decln_start) == V(actual_start))")],
+        returns="Node",
+        ensures=[
+            ("scalar_index_is_shifted_by_the_difference_of_the_starts",
+             "implies(not isinstance(local_idx, Range), "
+             "result is not None and V(result) == "
+             "V(local_idx) - V(decln_start) + V(actual_start))"),
+            ("range_is_shifted_component_wise_and_keeps_its_step",
+             "implies(isinstance(local_idx, Range), result is not None and "
+             "VLO(result) == VLO(local_idx) - V(decln_start) + "
+             "V(actual_start) and VHI(result) == VHI(local_idx) - "
+             "V(decln_start) + V(actual_start) and "
+             "VST(result) == VST(local_idx))"),
+        ],
+        raises={}, modifies=[],
+        covers=[("range", "isinstance(local_idx, Range)"),
+                ("shifted", "not isinstance(local_idx, Range) and "
+                            "not SAME(decln_start, actual_start)")])
+    uni.contracts["InlineTrans._create_inlined_idx:top"] = ci
+    uni.contracts["InlineTrans._create_inlined_idx"] = ci
+    uni.note_assumption(
+        "V(e): the integer an index expression denotes during the call "
+        "(uninterpreted); _replace_formal_arg and copy() preserve it; "
+        "BinaryOperation.create(SUB/ADD) and Range.create denote the "
+        "arithmetic they write; structurally equal start expressions are "
+        "assumed to denote the same value (true for literal bounds; NOT "
+        "checked for bounds that name variables of different scopes); the "
+        "start / stop part of a range in the routine is not itself a range")
+    return [ci]
 
 
 TRUSTED = [
     "pyvc VC generator and z3",
     "gfortran and the hand-written driver, in the bounded part only",
     "NOT under contract: InlineTrans.validate (which call shapes are "
-    "accepted), _replace_formal_arg, _create_inlined_idx, "
-    "_update_actual_indices, the rest of SymbolTable.merge (C16)",
+    "accepted), _replace_formal_arg, _update_actual_indices, the rest of "
+    "SymbolTable.merge (C16)",
 ]
 EXPLANATION = (
     "_handle_symbol_clash never lets an incoming symbol share a name with a "
